@@ -225,7 +225,7 @@ func (fx *FnCtx) evalArgs(st *State, call *ast.CallExpr, sig *types.Signature) [
 			cur = fmt.Sprintf("(store %s %d %s)", cur, n, v.T)
 			n++
 		}
-		args = append(args, Val{fmt.Sprintf("(mk_%s %s 0 %d %d)", ss, cur, n, n), ss, vt})
+		args = append(args, Val{fmt.Sprintf("(mk_%s %s 0 %d %d %s)", ss, cur, n, n, fx.allocRef(st, "backing")), ss, vt})
 		return args
 	}
 	if len(call.Args) == 1 && np > 1 {
@@ -274,6 +274,8 @@ func (fx *FnCtx) evalCall(st *State, call *ast.CallExpr) []Val {
 	for _, o := range outs {
 		if o.fl == flPanic {
 			fx.pendingPanics = append(fx.pendingPanics, o.st)
+		} else if o.fl == flExit {
+			fx.fail("call that never returns used as an expression at %s", fx.pos(call))
 		} else {
 			normal = o.st
 		}
@@ -360,6 +362,8 @@ func (fx *FnCtx) builtin(st *State, name string, call *ast.CallExpr) []Val {
 			rv := Val{r, s.S, rt}
 			st.assume(fx.sliceWF(rv))
 			st.assume(fmt.Sprintf("(= (len_%s %s) (+ (len_%s %s) (len_%s %s)))", s.S, r, s.S, s.T, b.S, b.T))
+			nb := fx.allocRef(st, "backing")
+			st.assume(fmt.Sprintf("(= (bid_%s %s) (ite (<= (len_%s %s) (cap_%s %s)) (bid_%s %s) %s))", s.S, r, s.S, r, s.S, s.T, s.S, s.T, nb))
 			el := fx.sc.elemFn(s.S)
 			st.assume(fmt.Sprintf("(forall ((i Int)) (! (=> (and (<= 0 i) (< i (len_%s %s))) (= (%s %s i) (%s %s i))) :pattern ((%s %s i))))",
 				s.S, s.T, el, r, el, s.T, el, r))
@@ -371,8 +375,10 @@ func (fx *FnCtx) builtin(st *State, name string, call *ast.CallExpr) []Val {
 		for _, a := range call.Args[1:] {
 			v := fx.coerce(fx.eval(st, a), es, sl.Elem())
 			nc := fx.sc.Fresh("cap", "Int")
-			t := fmt.Sprintf("(mk_%s (store (arr_%s %s) (+ (off_%s %s) (len_%s %s)) %s) (off_%s %s) (+ (len_%s %s) 1) %s)",
-				cur.S, cur.S, cur.T, cur.S, cur.T, cur.S, cur.T, v.T, cur.S, cur.T, cur.S, cur.T, nc)
+			// backing array: kept while there is room, a fresh one after reallocation
+			nb := fx.allocRef(st, "backing")
+			t := fmt.Sprintf("(mk_%s (store (arr_%s %s) (+ (off_%s %s) (len_%s %s)) %s) (off_%s %s) (+ (len_%s %s) 1) %s (ite (< (len_%s %s) (cap_%s %s)) (bid_%s %s) %s))",
+				cur.S, cur.S, cur.T, cur.S, cur.T, cur.S, cur.T, v.T, cur.S, cur.T, cur.S, cur.T, nc, cur.S, cur.T, cur.S, cur.T, cur.S, cur.T, nb)
 			st.assume(fmt.Sprintf("(>= %s (+ (len_%s %s) 1))", nc, cur.S, cur.T))
 			st.assume(fmt.Sprintf("(>= %s (cap_%s %s))", nc, cur.S, cur.T))
 			// no reallocation while there is room; a reallocated backing array is zeroed beyond the new length
@@ -407,7 +413,7 @@ func (fx *FnCtx) builtin(st *State, name string, call *ast.CallExpr) []Val {
 			if z != "0" && z != "false" {
 				arr = fx.sc.constArr("(Array Int "+es+")", z)
 			}
-			return []Val{{fmt.Sprintf("(mk_%s %s 0 %s %s)", ss, arr, n.T, c.T), ss, t}}
+			return []Val{{fmt.Sprintf("(mk_%s %s 0 %s %s %s)", ss, arr, n.T, c.T, fx.allocRef(st, "backing")), ss, t}}
 		}
 		fx.fail("unsupported make(%v)", t)
 	case "new":
@@ -562,7 +568,7 @@ func (fx *FnCtx) allOfTargets(it ModItem) []modTarget {
 		so := fx.sc.SortOf(t)
 		return []modTarget{{heap: derefHeap(so), sort: "(Array Int " + so + ")", src: it.Src}}
 	}
-	i := strings.Index(s, ".")
+	i := strings.LastIndex(s, ".")
 	if i < 0 {
 		if mt, ok := fx.resolveType(s).Underlying().(*types.Map); ok {
 			dom, val, ks, vs := fx.sc.mapSorts(mt)
@@ -720,7 +726,7 @@ func (fx *FnCtx) applyCall(st *State, ci *calleeInfo, recv *Val, args []Val, at 
 		}
 		for _, c := range cas {
 			fx.stmtAssertHit[c] = true
-			ce := fx.env(st)
+			ce := fx.envAt(st, at.Pos())
 			ce.bound = map[string]Val{}
 			for k, v := range cenv.named {
 				if _, clash := st.named[k]; !clash {
@@ -737,6 +743,10 @@ func (fx *FnCtx) applyCall(st *State, ci *calleeInfo, recv *Val, args []Val, at 
 		goal := fx.specBool(pre, r.Expr)
 		fx.emit(st, fmt.Sprintf("call(%s):requires[%s]", ci.key, r.Label), "call-requires", r.Tags, goal, r.Src, fx.pos(at))
 		st.assume(goal)
+	}
+	if fc.NoReturn {
+		st.trace = append(st.trace, "exit via "+ci.key+" at "+fx.pos(at))
+		return []outcome{{st: st, fl: flExit}}
 	}
 	// havoc modifies
 	targets := fx.modTargets(pre, fc.Modifies)
